@@ -8,5 +8,5 @@ d=$(realpath "$1"); shift
 git -C $WT apply "$d" || { echo "patch does not apply"; exit 2; }
 mkdir -p /tmp/rev
 for p in "$@"; do
-  OKANE_REPO=$WT VERIF_EVIDENCE_DIR=/tmp/rev /verif/check $p 2>&1 | grep -E "violated:|ANCHOR|== C|Error|File " | cut -c1-${RTRY_W:-420}
+  OKANE_REPO=$WT VERIF_EVIDENCE_DIR=/tmp/rev /verif/check $p 2>&1 | grep -E "violated:|ANCHOR|== C|Error|File |view\]" | cut -c1-${RTRY_W:-420}
 done
